@@ -62,12 +62,16 @@ def scripts(d):
         # a listing / download whose data peer does not read: the worker stays suspended in the middle of it
         "list-noread": ["PASV", "@data", "@dstop", f"LIST /{d}"],
         "retr-noread": ["EPSV", "@data", "@dstop", f"RETR /{d}/bigf"],
+        # a backend call of this session does not return (a named pipe nobody reads, a dead network mount): the executor
+        # backend keeps one of its threads busy with it - every other session goes on as if alone
+        "stuck-call": ["EPSV", "@data", f"STOR /{d}/stuck-here"],
+        "stuck-lookup": ["PWD", f"MLST /{d}/stuck-here"],
         "die-busy-pasv": ["@busy-on", "PASV", "@busy-off"],
         "die-busy-epsv": ["PWD", "@busy-on", "EPSV", "@busy-off"],
     }
 
 
-NAMES = [n for n in scripts("a") if not n.startswith(("big-", "die-")) and not n.endswith("-noread")]
+NAMES = [n for n in scripts("a") if not n.startswith(("big-", "die-", "stuck-")) and not n.endswith("-noread")]
 
 
 def norm(transcript):
@@ -114,6 +118,8 @@ def run_pair(case, chooser):
               backend=case.get("backend", "memory"), delay=case.get("delay", 0.0))
     try:
         w = rig.world
+        if case.get("stuck"):
+            w.net.stuck = lambda job, _name=case["stuck"]: _name in repr(getattr(job.func, "args", ()))     # noqa
         chooser.active = False
         connected = [False, False]
         for i in range(2):
@@ -339,6 +345,19 @@ def _work(item):
                     part.violation({"kind": p["kind"], "pair": [na, nb], "same_virtual_paths": True},
                                    {"problem": p, "order": o}, replay={"samepath": case})
                     break
+        elif mode == "stuck":
+            # session A first (it hangs in its backend call), then the whole of session B
+            case = {**base, "order": seq, "stuck": "stuck-here"}
+            res = run_pair(case, Chooser())
+            part.evaluations += 1
+            part.traces += 1
+            part.transitions += res["events"]
+            part.states.add(res["trace"])
+            part.nontrivial.add(res["trace"])
+            for p in compare(res, solo_a, solo_b, False, only="b"):
+                part.violation({"kind": p["kind"], "pair": [na, nb], "stuck_backend_call": True},
+                               {"problem": p}, replay={"case": case, "choices": [], "kinds": []})
+                break
         elif mode == "after":
             # session A dies; *afterwards* session B must find everything as if A had never existed (limits of 1)
             case = {**base, "order": seq, "explore": True}
@@ -474,6 +493,9 @@ def build_items(tier):
     for na, nb in slow_fired:
         items.append(("fired", na, nb, {"bound": 1, "cap": 1500 if tier == "quick" else 6000, "backend": "slow",
                                         "delay": 0.125}))
+    for na in ("stuck-call", "stuck-lookup"):
+        for nb in ("cwd", "upload", "download-twice", "type-list", "rename"):
+            items.append(("stuck", na, nb, {"backend": "async"}))
     # per-connection limits of one account are per session: a big transfer takes as long next to another one as alone
     # (measured on downloads, whose pace is the server's alone: 150 mark to completion reply)
     for na, nb in (("big-download", "big-download"), ("big-download", "big-upload"), ("big-download", "big-abort"),
